@@ -324,7 +324,7 @@ func main() {
 				v, ok := RefEval(e, env)
 				want = refLine(v, ok, env)
 			case c < 70: // failure propagation and short circuit (C12)
-				g := &exGen{r: r, env: env, instr: true}
+				g := &exGen{r: r, env: env, instr: true, noRightTer: true}
 				e := g.Gen("?", 1+r.Intn(5))
 				src = g.Print(e)
 				tag = "instr"
@@ -360,7 +360,7 @@ func main() {
 				if tag == "ops-right-ternary" && why != "" {
 					c09 = "KF-ternary-right-assoc " + why
 				}
-				if strings.ContainsAny(src, "<>=!") {
+				if strings.ContainsAny(src, "<>=!") && tag != "ops-right-ternary" {
 					c11 = c09
 				}
 			case strings.HasPrefix(tag, "instr"):
@@ -442,6 +442,14 @@ func main() {
 				c14 = fmt.Sprintf("literal %s of string %q: %s, expected %s", src, s, res, want)
 			}
 			out.put(fmt.Sprintf("eval %s %s %s", meth, encE, encStr(src)), res, verdict("C14", c14), verdict("C08", panicOnly(res)))
+		}
+		out.close()
+	case "plain": // <seed> <n> <outdir>
+		seed, _ := strconv.ParseUint(os.Args[2], 10, 64)
+		n, _ := strconv.Atoi(os.Args[3])
+		out := openOut(os.Args[4])
+		for i := 0; i < n; i++ {
+			genPlainCase(NewRng(seed, uint64(i)), out)
 		}
 		out.close()
 	case "tmpl": // <seed> <n> <outdir>
